@@ -16,7 +16,8 @@ VARIABLES
   dwait,             \* the dialer's redial timer is running
   dbo,               \* ... and fires within this many ms (the back-off in force when it was armed)
   cur,               \* the dialer's current back-off: RMin after every connection, doubled (up to RMax) by every redial timer
-  duser,             \* the operation of a pending nng_dialer_start_aio (0: none)
+  duser,             \* the operation of a pending nng_dialer_start_aio or blocking nng_dial (0: none)
+  dblk,              \* ... it is a blocking nng_dial on another thread: the dialer has no handle yet, and is discarded if the dial fails
   dpipe,             \* the pipe the dialer owns (0: none)
   pst,               \* per pipe: "none" | "up" | "gone"      ("gone": closed, all its events delivered)
   via,               \* per pipe: "L" | "D" | "-"  (which endpoint created it)
@@ -25,19 +26,19 @@ VARIABLES
   ctx1,              \* "none" | "open" | "closed"
   rops,              \* pending receives: op -> context (0: socket)
   ops, used, ticks, doneV, lastAct, ev
-vars == <<sock, lst, dst, lparked, dparked, dwait, dbo, cur, duser, dpipe, pst, via, hist, reject, ctx1, rops, ops, used, ticks, doneV, lastAct, ev>>
+vars == <<sock, lst, dst, lparked, dparked, dwait, dbo, cur, duser, dblk, dpipe, pst, via, hist, reject, ctx1, rops, ops, used, ticks, doneV, lastAct, ev>>
 
 NOps == Len(ops)
-Init == /\ sock = "open" /\ lst = "up" /\ dst = "none" /\ lparked = TRUE /\ dparked = FALSE /\ dwait = FALSE /\ dbo = 0 /\ cur = RMin /\ duser = 0 /\ dpipe = 0
+Init == /\ sock = "open" /\ lst = "up" /\ dst = "none" /\ lparked = TRUE /\ dparked = FALSE /\ dwait = FALSE /\ dbo = 0 /\ cur = RMin /\ duser = 0 /\ dblk = FALSE /\ dpipe = 0
         /\ pst = [p \in Pipes |-> "none"] /\ via = [p \in Pipes |-> "-"] /\ hist = [p \in Pipes |-> <<>>] /\ reject = FALSE
         /\ ctx1 = "none" /\ rops = <<>> /\ ops = <<>> /\ used = {} /\ ticks = 0 /\ doneV = <<>> /\ lastAct = [a |-> "init"] /\ ev = <<>>
 
-S0 == [sock |-> sock, lst |-> lst, dst |-> dst, lparked |-> lparked, dparked |-> dparked, dwait |-> dwait, dbo |-> dbo, cur |-> cur, duser |-> duser, dpipe |-> dpipe,
+S0 == [sock |-> sock, lst |-> lst, dst |-> dst, lparked |-> lparked, dparked |-> dparked, dwait |-> dwait, dbo |-> dbo, cur |-> cur, duser |-> duser, dblk |-> dblk, dpipe |-> dpipe,
        pst |-> pst, via |-> via, hist |-> hist, ctx1 |-> ctx1, rops |-> rops, ops |-> ops, done |-> {}, ev |-> <<>>]
 SortDone(D) == LET RECURSIVE F(_) F(X) == IF X = {} THEN <<>> ELSE LET x == CHOOSE y \in X : \A z \in X : y.op <= z.op IN <<x>> \o F(X \ {x}) IN F(D)
 Apply(S, a) ==
   /\ sock' = S.sock /\ lst' = S.lst /\ dst' = S.dst /\ lparked' = S.lparked /\ dparked' = S.dparked /\ dwait' = S.dwait /\ dpipe' = S.dpipe
-  /\ dbo' = S.dbo /\ cur' = S.cur /\ duser' = S.duser
+  /\ dbo' = S.dbo /\ cur' = S.cur /\ duser' = S.duser /\ dblk' = S.dblk
   /\ pst' = S.pst /\ via' = S.via /\ hist' = S.hist /\ ctx1' = S.ctx1 /\ rops' = S.rops /\ ops' = S.ops
   /\ doneV' = SortDone(S.done) /\ ev' = S.ev /\ lastAct' = a
 Note(S, p, e) == [S EXCEPT !.hist = [@ EXCEPT ![p] = Append(@, e)], !.ev = Append(@, <<p, e, Len(S.hist[p]) + 1>>)]
@@ -90,19 +91,25 @@ DialAio == /\ sock = "open" /\ dst \in {"none", "idle"} /\ NOps < MaxOps
            /\ Apply([S0 EXCEPT !.ops = Append(@, "pend"), !.dst = "up", !.dparked = TRUE, !.duser = NOps + 1],
                     [a |-> "dial", mode |-> "aio", op |-> NOps + 1, out |-> [rv |-> "ok"]])
            /\ UNCHANGED <<reject, used, ticks>>
+\* a blocking nng_dial (no NNG_FLAG_NONBLOCK) issued by another application thread: it returns when the first attempt ends; if that
+\* fails, or the socket is closed under it, the dialer is discarded (no handle was ever handed out) and the call fails
+DialBlock == /\ sock = "open" /\ dst = "none" /\ NOps < MaxOps
+             /\ Apply([S0 EXCEPT !.ops = Append(@, "pend"), !.dst = "up", !.dparked = TRUE, !.duser = NOps + 1, !.dblk = TRUE],
+                      [a |-> "dial", mode |-> "block", op |-> NOps + 1, out |-> [rv |-> "ok"]])
+             /\ UNCHANGED <<reject, used, ticks>>
 SetReject(b) == /\ sock = "open" /\ reject # b /\ reject' = b /\ Apply(S0, [a |-> "reject", on |-> b, out |-> [rv |-> "ok"]])
                 /\ UNCHANGED <<used, ticks>>
 LClose == /\ sock = "open" /\ lst = "up"
           /\ Apply(DropAll([S0 EXCEPT !.lst = "closed", !.lparked = FALSE], {p \in Pipes : via[p] = "L"}), [a |-> "lclose", out |-> [rv |-> "ok"]])
           /\ UNCHANGED <<reject, used, ticks>>
-UserEnd(S, rv) == IF S.duser = 0 THEN S ELSE Done([S EXCEPT !.duser = 0], S.duser, rv)
-DClose == /\ sock = "open" /\ dst \in {"up", "idle"}
+UserEnd(S, rv) == IF S.duser = 0 THEN S ELSE Done([S EXCEPT !.duser = 0, !.dblk = FALSE], S.duser, rv)
+DClose == /\ sock = "open" /\ dst \in {"up", "idle"} /\ ~dblk
           /\ Apply(DropAll(UserEnd([S0 EXCEPT !.dst = "closed", !.dparked = FALSE, !.dwait = FALSE], "eclosed"), {p \in Pipes : via[p] = "D"}),
                    [a |-> "dclose", out |-> [rv |-> "ok"]])
           /\ UNCHANGED <<reject, used, ticks>>
 PipeClose(p) == /\ sock = "open" /\ pst[p] = "up" /\ Apply(Drop(S0, p), [a |-> "pipe_close", p |-> p]) /\ UNCHANGED <<reject, used, ticks>>
 Close == /\ sock = "open"
-         /\ Apply(FailOps(DropAll(UserEnd([S0 EXCEPT !.sock = "closed", !.lst = IF lst = "up" THEN "closed" ELSE @, !.dst = IF dst \in {"up", "idle"} THEN "closed" ELSE @,
+         /\ Apply(FailOps(DropAll(UserEnd([S0 EXCEPT !.sock = "closed", !.lst = IF lst = "up" THEN "closed" ELSE @, !.dst = IF dblk THEN "none" ELSE IF dst \in {"up", "idle"} THEN "closed" ELSE @,
                                               !.lparked = FALSE, !.dparked = FALSE, !.dwait = FALSE, !.ctx1 = IF ctx1 = "open" THEN "closed" ELSE @], "eclosed"), Pipes), {0, 1}),
                   [a |-> "close", out |-> [rv |-> "ok"]])
          /\ UNCHANGED <<reject, used, ticks>>
@@ -122,7 +129,7 @@ ConnectD(p) == /\ sock = "open" /\ dparked /\ p \notin used /\ used' = used \cup
 \* the dialer stops (it can be started again)
 DFail == /\ sock = "open" /\ dparked
          /\ Apply(IF duser = 0 THEN Arm([S0 EXCEPT !.dparked = FALSE])
-                               ELSE UserEnd([S0 EXCEPT !.dparked = FALSE, !.dst = "idle"], "econnrefused"), [a |-> "dfail", out |-> [rv |-> "ok"]])
+                               ELSE UserEnd([S0 EXCEPT !.dparked = FALSE, !.dst = IF dblk THEN "none" ELSE "idle"], "econnrefused"), [a |-> "dfail", out |-> [rv |-> "ok"]])
          /\ UNCHANGED <<reject, used, ticks>>
 PeerClose(p) == /\ sock = "open" /\ pst[p] = "up" /\ Apply(Drop(S0, p), [a |-> "peer_close", p |-> p]) /\ UNCHANGED <<reject, used, ticks>>
 \* the back-off in force passes: a waiting dialer has dialled again (C14: the delay is below that bound, which never exceeds RMax)
@@ -130,7 +137,7 @@ Tick == /\ ticks < MaxTicks /\ ticks' = ticks + 1
         /\ Apply(IF dwait THEN [S0 EXCEPT !.dwait = FALSE, !.dparked = TRUE] ELSE S0, [a |-> "tick", d |-> IF dwait THEN dbo ELSE RMin, out |-> [done |-> <<>>]])
         /\ UNCHANGED <<reject, used>>
 
-Next == Recv(0) \/ Recv(1) \/ CtxOpen \/ CtxClose \/ Dial \/ DialAio0 \/ DialAio \/ SetReject(TRUE) \/ SetReject(FALSE) \/ LClose \/ DClose \/ Close \/ Probe
+Next == Recv(0) \/ Recv(1) \/ CtxOpen \/ CtxClose \/ Dial \/ DialAio0 \/ DialAio \/ DialBlock \/ SetReject(TRUE) \/ SetReject(FALSE) \/ LClose \/ DClose \/ Close \/ Probe
         \/ DFail \/ Tick \/ \E p \in Pipes : ConnectL(p) \/ ConnectD(p) \/ PipeClose(p) \/ PeerClose(p)
 Spec == Init /\ [][Next]_vars
 
@@ -143,6 +150,7 @@ DialerSound == /\ Cardinality({p \in Pipes : via[p] = "D" /\ pst[p] = "up"}) <= 
                /\ (dpipe # 0 => pst[dpipe] = "up" /\ via[dpipe] = "D")
                /\ (dst = "up" => (dpipe # 0 /\ ~dparked /\ ~dwait) \/ (dpipe = 0 /\ (dparked # dwait)))
                /\ (dst # "up" => ~dparked /\ ~dwait /\ dpipe = 0 /\ duser = 0)
+               /\ (dblk => duser # 0 /\ dparked)
                /\ (dwait => dbo <= RMax /\ dbo >= RMin) /\ cur <= RMax
 ListenerSound == (lst = "up" /\ sock = "open") => lparked
 \* C10: after close nothing is pending, every pipe that was announced has been retired, every endpoint is down
@@ -150,7 +158,7 @@ ClosedIsFinal == sock = "closed" => /\ rops = <<>> /\ \A i \in 1..Len(ops) : ops
                                     /\ \A p \in Pipes : pst[p] # "up" /\ ~lparked /\ ~dparked /\ ~dwait
 CtxClosedIsFinal == ctx1 = "closed" => \A i \in 1..Len(rops) : rops[i].ctx # 1
 
-SId == <<sock, lst, dst, lparked, dparked, dwait, dbo, cur, duser, dpipe, pst, via, hist, reject, ctx1, rops, ops, used, ticks>>
+SId == <<sock, lst, dst, lparked, dparked, dwait, dbo, cur, duser, dblk, dpipe, pst, via, hist, reject, ctx1, rops, ops, used, ticks>>
 UpSet == {p \in Pipes : pst[p] = "up"}
 WireObs == LET RECURSIVE F(_) F(S) == IF S = {} THEN <<>> ELSE LET p == CHOOSE x \in S : \A y \in S : x <= y IN <<p>> \o F(S \ {p}) IN F(UpSet)
 Obs == [done |-> doneV, S_ev |-> ev, up |-> WireObs, lparked |-> lparked, dparked |-> dparked]
